@@ -1,12 +1,17 @@
 import SlotVerif.Model.Node
 import SlotVerif.Proofs.ListAux
+import SlotVerif.Proofs.Shape
 /-!
 # C16 — Node shapes are canonical modulo renaming; derived Language impls are coherent
 
 Model: `Model/Node.lean` (generic over the language signature, so the theorems cover every
-`define_language!` instance).  This file: the occurrence-list laws.  The shape laws
-(`weakShape_rename`, `weakShape_idem`, `weakShape_apply`) are listed as pending in the evidence
-and are covered by the correspondence check and the harness-side predicate only.
+`define_language!` instance).  This file: the occurrence-list laws and the central
+shape law `weakShape_rename` — **the shape of a node does not change when all its slot occurrences
+(free and bound alike) are renamed injectively**, for every node of every language, by a simulation
+argument over the weak-shape state (`Proofs/Shape.lean`).  So free renaming and alpha-renaming of
+binders both leave the shape — the hashcons key — unchanged.  `weakShape_idem`, `weakShape_apply`
+and the syntax round-trip are listed as pending in the evidence and are covered by the
+correspondence check and the harness-side predicates only.
 -/
 namespace SV.Node.C16
 open SV
@@ -138,5 +143,44 @@ example : let n : Node := { v := 0, fields := [.bind 2 (.app ⟨1, [(4, 2)]⟩),
 /-- non-vacuity: a `let` node with a properly named binder meets `NoBinderPublic` -/
 example : NoBinderPublic { v := 0, fields := [.bind 6 (.app ⟨1, [(4, 6), (8, 2)]⟩), .app ⟨2, [(4, 2)]⟩] } := by
   intro b hb; revert b; decide
+
+
+/-- **Shapes are invariant under injective renaming of all slot occurrences** (`weak_shape().0`):
+renaming the free slots and alpha-renaming the binders of a node, with any map injective on the
+node's occurrences, gives a node with literally the same shape. -/
+theorem weakShape_rename (n : Node) (ρ : Nat → Nat) (hρ : Shape.InjOn ρ (Node.allOcc n)) :
+    (Node.weakShape (Node.rename ρ n)).1 = (Node.weakShape n).1 := by
+  have h0 : Shape.Rel ρ (Node.allOcc n) (([], 0) : Field.WS) ([], 0) :=
+    ⟨rfl, SlotMap.wf_nil, SlotMap.wf_nil, fun _ _ => rfl⟩
+  have hA : ∀ f ∈ n.fields, ∀ x ∈ Field.allOcc f, x ∈ Node.allOcc n := by
+    intro f hf x hx
+    simp only [Node.allOcc, List.mem_flatMap]
+    exact ⟨f, hf, hx⟩
+  obtain ⟨h1, _⟩ := Shape.weakShapeFields_rel hρ n.fields h0 hA
+  simp only [Node.weakShape, Node.rename]
+  rw [h1]
+
+/-- the counter of fresh shape names advances identically, and the two final renamings agree along `ρ` -/
+theorem weakShape_rename_state (n : Node) (ρ : Nat → Nat) (hρ : Shape.InjOn ρ (Node.allOcc n)) :
+    Shape.Rel ρ (Node.allOcc n) (Node.weakShapeFields n.fields ([], 0)).2
+      (Node.weakShapeFields (n.fields.map (Field.rename ρ)) ([], 0)).2 := by
+  have h0 : Shape.Rel ρ (Node.allOcc n) (([], 0) : Field.WS) ([], 0) :=
+    ⟨rfl, SlotMap.wf_nil, SlotMap.wf_nil, fun _ _ => rfl⟩
+  have hA : ∀ f ∈ n.fields, ∀ x ∈ Field.allOcc f, x ∈ Node.allOcc n := by
+    intro f hf x hx
+    simp only [Node.allOcc, List.mem_flatMap]
+    exact ⟨f, hf, hx⟩
+  exact (Shape.weakShapeFields_rel hρ n.fields h0 hA).2
+
+/-- two nodes that differ by an injective renaming have the same shape (so they hit the same hashcons entry) -/
+theorem shape_eq_of_renamed (n m : Node) (ρ : Nat → Nat) (hρ : Shape.InjOn ρ (Node.allOcc n))
+    (h : m = Node.rename ρ n) : (Node.weakShape m).1 = (Node.weakShape n).1 := by
+  subst h; exact weakShape_rename n ρ hρ
+
+/-- non-vacuity: `lam $x. f($x, $y)` and its alpha/free renaming `lam $a. f($a, $b)` (kernel-checked shapes) -/
+def exNode : Node := { v := 0, fields := [.bind 8 (.app { id := 3, m := [(0, 8), (4, 12)] })] }
+example : (Node.weakShape (Node.rename (fun x => x + 100) exNode)).1 = (Node.weakShape exNode).1 := by decide
+example : Shape.InjOn (fun x => x + 100) (Node.allOcc exNode) := by
+  intro a _ b _ h; simpa using h
 
 end SV.Node.C16
